@@ -9,6 +9,9 @@ Definition ask_wellformed (id base quote price : string) (size : N) : Prop :=
 Lemma str_nonempty s : negb (str_empty s) = true <-> s <> "".
 Proof. destruct s; cbn; split; congruence. Qed.
 
+Lemma str_nonempty_true s : s <> "" -> negb (str_empty s) = true.
+Proof. apply str_nonempty. Qed.
+
 Theorem create_ask_admission e st sender funds id base quote price size st' r :
   execute FX e st sender funds (CreateAsk id base quote price size) = Ok (st', r) <->
   ask_wellformed id base quote price size /\
@@ -66,7 +69,7 @@ Qed.
 Definition escrow_create (m : emsg) : bool :=
   match m with CreateAsk _ _ _ _ _ | CreateBid _ _ _ _ _ _ _ => true | _ => false end.
 
-Definition keys_ok_asks (st : state) : Prop := forall k a, lookup k (st_asks st) = Some a -> a_id a = k.
+Definition asks_under_own_id (st : state) : Prop := forall k a, lookup k (st_asks st) = Some a -> a_id a = k.
 
 Definition action_name (m : emsg) : string :=
   match m with
@@ -96,7 +99,7 @@ Qed.
 
 (* expire / reject of an ask: reported id, reversed size = the size returned, order_open <-> still on the book *)
 Theorem reverse_ask_attributes e st sender funds id action csz st' r :
-  keys_ok_asks st -> reverse_ask FX e st sender funds id action csz = Ok (st', r) ->
+  asks_under_own_id st -> reverse_ask FX e st sender funds id action csz = Ok (st', r) ->
   exists a eff,
     lookup id (st_asks st) = Some a /\ eff <= a_size a /\
     r_attrs r = [("action", action); ("id", id); ("reverse_size", show_N eff);
